@@ -275,6 +275,58 @@ func runC09(k *eng.Check, tier string) {
 		}
 	}
 
+	// (3b) walkers do not stop early: a loop that reports addresses (calls the callback, directly or through
+	// a callee that does) is left before its own loop condition ends it only on an error exit
+	nLoops := 0
+	for _, fn := range walkers {
+		if len(fn.Blocks) == 0 {
+			continue
+		}
+		// callback calls: dynamic calls of a function-typed parameter/captured variable, or recursive walker calls
+		reports := func(b *ssa.BasicBlock) bool {
+			for _, in := range b.Instrs {
+				if call, ok := in.(*ssa.Call); ok {
+					cn := eng.CalleeName(call)
+					if strings.HasPrefix(cn, "dyn:") {
+						return true
+					}
+					if f := call.Call.StaticCallee(); f != nil && isWalker[f] && f != fn {
+						return true
+					}
+				}
+			}
+			return false
+		}
+		ord := 0
+		for _, l := range eng.Loops(fn) {
+			rep := false
+			for b := range l.Body {
+				if reports(b) {
+					rep = true
+				}
+			}
+			if !rep {
+				continue
+			}
+			nLoops++
+			ord++
+			bad := ""
+			for _, e := range l.Exits {
+				if e.From == l.Header {
+					continue // the loop's own condition
+				}
+				if hits := eng.Reach(fn, []eng.Point{{B: e.To(), I: 0}}, eng.SuccessExits(fn), nil); len(hits) > 0 {
+					bad = c.InstrPos(e.From.Instrs[len(e.From.Instrs)-1])
+				}
+			}
+			k.Require("walker-no-early-exit", fmt.Sprintf("%s#reporting-loop-%d", eng.Name(fn), ord), "a loop that reports addresses is left early only on an error exit", bad == "", bad,
+				"the loop can be left (break/return nil) before every element was reported: the remaining addresses are silently skipped")
+		}
+	}
+	if nLoops < 8 {
+		k.Unknown("walker-no-early-exit", "walker closure", "address-reporting loops", fmt.Sprintf("%d found (floor 8)", nLoops))
+	}
+
 	// (4) tuple level
 	runC09Tuple(k)
 }
